@@ -383,7 +383,7 @@ func TestP1Isolation(t *testing.T) {
 	defer rec.Finish(t)
 	firstRun = runWorkload()
 	rec.Rule(fmt.Sprintf("histories: a probe workload (%d items: 16 programs touching every operator and the error paths, ReadCMap, type1.Read of a PFB font with seac, Font.Write in 4 formats + re-read, WritePDF, Metrics.Write + re-read, all query methods, 130 name look-ups) is run; then 1-5 hostile programs drawn from %d pieces and their concatenations (overwriting or re-defining entries of systemdict, userdict, errordict, every StandardEncoding slot, the CIDInit procedure set, FontDirectory and the resource categories, replacing operators used by the font and CMap readers, or failing half-way inside begin, inside a CMap block, inside eexec, inside nested procedures) each run in an instance of its own; then a fresh instance is compared slot by slot with a pristine one and the workload is run again. Oracle: results before == results after == golden digest computed in a fresh process that never ran a hostile program. Non-trivial: >= 1 hostile program changed a shared-looking object in its own instance; distinct by history.", len(workload), len(hostilePieces)))
-	ev.SetupRapid(900, 64000)
+	ev.SetupRapid(1200, 64000)
 	rapid.Check(t, func(t *rapid.T) {
 		n := rapid.IntRange(1, 5).Draw(t, "nprograms")
 		c := &historyCase{}
